@@ -13,9 +13,10 @@ from ..ref import names, conform, binary
 LEVEL = "exploration"
 RULE = (
     "every ordered union of 2 (thorough: 3) branches over {null, boolean, int, long, float, double, string, bytes, enum E, "
-    "enum E2 (overlapping symbol), fixed F, array<int>, map<int>, records A{x}, B{x,y?}, C{y?,z=0}, int-date, dict-form "
+    "enum E2 (overlapping symbol), fixed F, array<int>, map<int>, records A{x}, A2{x} (same shape), B{x,y?}, C{y?,z=0}, int-date, dict-form "
     "double with a custom attribute} legal under the specification, in five contexts (top level, record field, array items, "
-    "map values, inside a record that is itself a union branch) and with the named branches spelled inline or by name; x "
+    "map values, inside a record that is itself a union branch - with and without namespace -, inside a record used a second "
+    "time by reference) and with the named branches spelled inline or by name; x "
     "every datum of D_1 of each branch plus the ambiguous ones (every subset of the records' field names, 5, 1.5, b'..', 'A', "
     "'B') x hints (tuple for every branch name, full name, an unknown name; '-type' for each record and an unknown one) x "
     "disable_tuple_notation x the reader options return_record_name / return_named_type and their overrides. Oracle: the "
@@ -34,9 +35,10 @@ UNIT_TIMEOUT_S = 1500
 A = {"type": "record", "name": "A", "fields": [{"name": "x", "type": "int"}]}
 B = {"type": "record", "name": "B", "fields": [{"name": "x", "type": "int"}, {"name": "y", "type": "string", "default": "dy"}]}
 C = {"type": "record", "name": "C", "fields": [{"name": "y", "type": "string", "default": "dy"}, {"name": "z", "type": "int", "default": 0}]}
+A2 = {"type": "record", "name": "A2", "fields": [{"name": "x", "type": "int"}]}  # same shape as A: only a hint tells them apart
 POOL = [
     "null", "boolean", "int", "long", "float", "double", "string", "bytes", family.E(), family.E2(), family.F(), {"type": "array", "items": "int"},
-    {"type": "map", "values": "int"}, A, B, C, {"type": "int", "logicalType": "date"}, {"type": "double", "unit": "metres"},
+    {"type": "map", "values": "int"}, A, B, C, {"type": "int", "logicalType": "date"}, {"type": "double", "unit": "metres"}, A2,
 ]
 
 
@@ -65,7 +67,7 @@ def unions(tier):
                 out.append(copy.deepcopy(bs))
     else:
         # quick: the triples made of records / float-double / named mixes only
-        core = [POOL[i] for i in (0, 4, 5, 6, 8, 9, 13, 14, 15, 17)]
+        core = [POOL[i] for i in (0, 4, 5, 6, 8, 9, 13, 14, 15, 17, 18)]
         for tr in itertools.permutations(range(len(core)), 3):
             bs = [core[i] for i in tr]
             if legal(bs) and sum(1 for b in bs if isinstance(b, dict) and b.get("type") == "record") >= 2:
@@ -82,6 +84,12 @@ def contexts(u):
     out.append(("array", {"type": "array", "items": copy.deepcopy(u)}))
     out.append(("map", {"type": "map", "values": copy.deepcopy(u)}))
     out.append(("in-branch", ["null", {"type": "record", "name": "Holder", "namespace": "deep", "fields": [{"name": "u", "type": copy.deepcopy(u)}]}]))
+    # the same nesting without any namespace ('-type' hints must still be matched by the record's own name)
+    out.append(("in-branch", ["null", {"type": "record", "name": "Holder2", "fields": [{"name": "u", "type": copy.deepcopy(u)}]}]))
+    # a record holding the union, used a second time by reference
+    out.append(("second-use", {"type": "record", "name": "W2", "fields": [
+        {"name": "first", "type": {"type": "record", "name": "Holder3", "fields": [{"name": "u", "type": copy.deepcopy(u)}]}},
+        {"name": "second", "type": "Holder3"}, {"name": "others", "type": {"type": "array", "items": "Holder3"}}]}))
     named = [b for b in u if isinstance(b, dict) and b.get("type") in ("record", "enum", "fixed")]
     if named:
         fields = [{"name": "d%d" % i, "type": copy.deepcopy(b)} for i, b in enumerate(named)]
@@ -139,6 +147,8 @@ def embed(ctx, d):
         return {"k": d}
     if ctx == "in-branch":
         return {"u": d}
+    if ctx == "second-use":
+        return {"first": {"u": d}, "second": {"u": d}, "others": [{"u": d}]}
     raise AssertionError(ctx)
 
 
